@@ -124,6 +124,7 @@ class Explorer(object):
         self.feas_cache = {}
         self.notes = []
         self.seen_obl = set()
+        self.keepalive = []
 
     def run(self, body):
         while self.stack:
@@ -246,16 +247,28 @@ class State(object):
                            tuple(self.decisions[:self.dpos]), kind))
             self.ex.obligations[-1].status = 'trivial'
             return
-        ob = Obligation(self.ex.func_key, label, lineno or self.lineno, list(self.pc), goal,
-                        tuple(self.decisions[:self.dpos]), kind)
-        self.ex.obligations.append(ob)
+        sig = (label, goal.get_id(), tuple(p.get_id() for p in self.pc))
+        if sig not in self.ex.seen_obl:
+            # identical obligation reached along several decision prefixes: one query is enough
+            self.ex.seen_obl.add(sig)
+            ob = Obligation(self.ex.func_key, label, lineno or self.lineno, list(self.pc), goal,
+                            tuple(self.decisions[:self.dpos]), kind)
+            self.ex.obligations.append(ob)
+            self.ex.keepalive.append((goal, list(self.pc)))
         self.assume(goal)
 
     # ---- heap
+    def _len_nonneg(self, key, h):
+        # heap type invariant: every list / dict length is non-negative
+        if key.startswith('$llen') or key == '$dlen':
+            r = z3.Int('r!nn')
+            self.pc.append(z3.ForAll([r], z3.Select(h, r) >= 0, patterns=[z3.Select(h, r)]))
+
     def H(self, key, sort):
         if key not in self.heap:
             if self.fresh_epoch == 0:
                 self.heap[key] = z3.Const('H0_' + key, sort)
+                self._len_nonneg(key, self.heap[key])
             else:
                 # first touched after a havoc of the fresh region: equal to the initial heap
                 # on the objects that existed at function entry, arbitrary on the others
@@ -265,6 +278,7 @@ class State(object):
                 self.pc.append(z3.ForAll([r], z3.Implies(r < self.fn_alloc0, z3.Select(h, r) == z3.Select(h0, r)),
                                          patterns=[z3.Select(h, r)]))
                 self.heap[key] = h
+                self._len_nonneg(key, h)
         return self.heap[key]
 
     def havoc_fresh_region(self):
@@ -278,6 +292,7 @@ class State(object):
             self.pc.append(z3.ForAll([r], z3.Implies(r < self.fn_alloc0, z3.Select(h, r) == z3.Select(old, r)),
                                      patterns=[z3.Select(h, r)]))
             self.heap[key] = h
+            self._len_nonneg(key, h)
 
     def field_key(self, cls, fname):
         dcls, ty = R.find_field(cls, fname)
@@ -341,6 +356,11 @@ class State(object):
                     self.assume(z3.Select(self.llen_arr(T.sort_of(t.args[0])), v.z) >= 0)
             if t.kind == 'dict':
                 self.assume(z3.Select(self.H('$dlen', z3.ArraySort(z3.IntSort(), z3.IntSort())), v.z) >= 0)
+                if t.args and t.args[0].kind != 'unknown':
+                    key = ('dictwf', v.z.get_id(), tuple(sorted((k, a.get_id()) for k, a in self.heap.items() if k.startswith('$d'))))
+                    if key not in self.ghost.setdefault('$wf_seen', set()):
+                        self.ghost['$wf_seen'].add(key)
+                        self.assume(z3.Implies(v.z != 0, self.dict_wf(v.z, t.args[0], t.args[1])))
         elif t.kind == 'union' and t.args:
             alts = []
             for a in t.args:
